@@ -13,7 +13,7 @@ from torch import Tensor, nn
 from torch.fx import Interpreter
 from torch.fx.graph import Graph
 from torch.fx.graph_module import GraphModule
-from torch.fx.node import Node, Target
+from torch.fx.node import Node, Target, map_arg
 
 from .utils import apply_transform
 
@@ -218,22 +218,14 @@ class ScaleTrackingBackend:
 
 
 def _prune(graph: Graph, node: Node, replacement_arg: Optional[Node] = None) -> None:
+    def replace(n: Node) -> Optional[Node]:
+        return replacement_arg if n is node else n
+
     for user in list(node.users):
-        # output node's args are a tuple of tuples, so need special handling
-        if user.name == "output":
-            user.args = tuple(
-                (
-                    (tuple(replacement_arg if o == node else o for o in out))
-                    if isinstance(out, Iterable)
-                    else (replacement_arg if out == node else out)
-                )
-                for out in user.args
-            )
-        else:
-            user.args = tuple(replacement_arg if a == node else a for a in user.args)
-        user.kwargs = {
-            k: replacement_arg if v == node else v for k, v in user.kwargs.items()
-        }
+        # map_arg reaches every occurrence: positional, keyword, and nested in
+        # lists / tuples (e.g. the output node's tuple, or the list given to `cat`)
+        user.args = map_arg(user.args, replace)
+        user.kwargs = map_arg(user.kwargs, replace)
     graph.erase_node(node)
 
 
@@ -353,7 +345,7 @@ def prune_non_float_tensors(graph: Graph) -> Graph:
             continue
 
         if not n.meta.get("outputs_float_tensor", False):
-            float_tensor_args = _filter_float_tensors(n.args)
+            float_tensor_args = _filter_float_tensors(n.all_input_nodes)
             a = float_tensor_args[0] if len(float_tensor_args) == 1 else None
             logger.info("pruning non-float node: %s", n)
             _prune(graph, n, replacement_arg=a)
@@ -402,7 +394,7 @@ def prune_same_scale_tensors(graph: Graph, rtol: float = 2**-16) -> Graph:
         if n.name == "output" or not n.meta.get("outputs_float_tensor", False):
             continue
 
-        float_tensor_args = _filter_float_tensors(n.args)
+        float_tensor_args = _filter_float_tensors(n.all_input_nodes)
         if len(float_tensor_args) == 1:
             a = float_tensor_args[0]
             a_metrics = a.meta["metrics"]
